@@ -2,7 +2,7 @@
     branches of [Parser.run] that environments exercise. *)
 From Coq Require Import NArith List Bool Arith Lia.
 From PLV Require Import Base.PyStr Tok.PState Tok.Tokenizer Parse.Nodes Parse.Parser Parse.ParseWire
-                        Proofs.ParserMono Proofs.ParserSpansStep Proofs.ParserErrorsBase
+                        Proofs.PyStrFacts Proofs.ParserMono Proofs.ParserSpansStep Proofs.ParserErrorsBase
                         Doc.DocGrammar Doc.DocGrammar2 Proofs.RoundTripTok Proofs.RoundTripRules Proofs.RoundTrip2Tok.
 Import ListNotations.
 
@@ -407,5 +407,64 @@ Section Rules2.
   Proof.
     intros T. rewrite run_expr. unfold expr_step. rewrite next_tok_strict, T.
     cbn [mk tk targ tpre tpos tend tpost]. apply e_finish_last.
+  Qed.
+
+  (** * Verbatim *)
+
+  (** ** the [\verb] macro: [dc text dc] directly after the name *)
+  Lemma rule_tlegacy_verb n ps pe dc text rest :
+    skipn pe s = dc :: text ++ dc :: rest -> is_space dc = false -> mem_c dc text = false ->
+    R (S n) (TLegacyArgs ps LVerbMacro pe)
+    = Ok (OArgs (Some ([[123%N]], [Some (mk_chars ps (S pe) (S pe + length text) text)]))) (S (S pe + length text)).
+  Proof.
+    intros SK SP NT. cbn [run].
+    assert (PS : peek_space s pe = ([], pe + 0)).
+    { apply (peek_space_at s pe [] (dc :: text ++ dc :: rest) SK eq_refl). exact SP. }
+    rewrite PS. cbn [snd]. rewrite Nat.add_0_r. rewrite (nth_error_of_skipn _ _ _ _ SK).
+    pose proof (skipn_cons_lt _ _ _ _ SK) as [PL SK1].
+    assert (F : sfind s [dc] (S pe) = Some (S pe + length text)).
+    { unfold sfind, find_from. assert (L : Nat.ltb (length s) (S pe) = false) by (apply Nat.ltb_ge; lia).
+      rewrite L, SK1, (find_sub_char dc text rest NT). reflexivity. }
+    rewrite F. unfold slice. rewrite SK1. replace (S pe + length text - S pe) with (length text) by lia.
+    rewrite firstn_len_app. reflexivity.
+  Qed.
+
+  Lemma rule_tcall_legacy_macro n ps name p0 pe post sp k a p :
+    sp_args sp = APLegacy k ->
+    R n (TLegacyArgs ps k pe) = Ok (OArgs a) p ->
+    R (S n) (TCall ps (mk TkMacro name p0 pe [] post) sp pe)
+    = Ok (ONode (Some (NMacro p0 p (ps_mode ps) name post a))) p.
+  Proof. intros A H. cbn [run]. rewrite A, H. cbn [parse_content_args parse_content]. destruct a as [[? ?]|]; reflexivity. Qed.
+
+  (** ** verbatim environments *)
+  Lemma rule_tlegacy_venv n ps vn (optarg : bool) pos (spl : list str) (al : list (option node)) (p e : nat) :
+    (if optarg
+     then match nth_error s pos with
+          | Some c => if is_space c then spl = [[91%N]] /\ al = [None] /\ p = pos
+                      else exists nd, parse_content false (R n (TGroup ps (GDPair [91%N] [93%N]) true false pos))
+                                      = Ok (ONode nd) p /\ spl = [[91%N]] /\ al = [nd]
+          | None => False
+          end
+     else spl = [] /\ al = [] /\ p = pos) ->
+    sfind s ([92;101;110;100;123]%N ++ vn ++ [125%N]) p = Some e ->
+    R (S n) (TLegacyArgs ps (LVerbEnv vn optarg) pos)
+    = Ok (OArgs (Some (spl ++ [[123%N]], al ++ [Some (mk_chars ps p e (slice s p e))]))) e.
+  Proof.
+    intros O F. cbn [run]. destruct optarg.
+    - destruct (nth_error s pos) as [c|]; [|contradiction]. destruct (is_space c).
+      + destruct O as (-> & -> & ->). rewrite F. reflexivity.
+      + destruct O as (nd & G & -> & ->). rewrite G. rewrite F. reflexivity.
+    - destruct O as (-> & -> & ->). rewrite F. reflexivity.
+  Qed.
+
+  Lemma rule_tcall_legacy_env n ps name p0 pe sp k a p body p2 :
+    sp_args sp = APLegacy k ->
+    R n (TLegacyArgs ps k pe) = Ok (OArgs a) p ->
+    R n (TEnvBody (env_body_state ps sp) name p) = Ok (ONode body) p2 ->
+    R (S n) (TCall ps (mk TkBeginEnv name p0 pe [] []) sp pe)
+    = Ok (ONode (Some (NEnv p0 p2 (ps_mode ps) name a body))) p2.
+  Proof.
+    intros A H B. cbn [run]. rewrite A, H. cbn [parse_content_args parse_content mk tk targ tpos].
+    unfold env_body_state in B. rewrite B. destruct a as [[? ?]|]; reflexivity.
   Qed.
 End Rules2.
